@@ -101,6 +101,7 @@ typedef struct tsnpd_spell {
     int refstyle;	/* v2: 0 R only / one line if unequal, 1 explicit
 			   one line, 2 explicit, values on following lines */
     int kworder;	/* v2: 0 canonical 1 reversed 2 rotated */
+    int intzero;	/* v2: 1 counts written with a leading zero ("03") */
 } tsnpd_spell;
 
 #define TSNPD_NA	1	/* spelling not applicable to this network */
@@ -117,6 +118,7 @@ typedef struct tsnpd_npd_spell {
     int comments;	/* 0 none 1 comment lines 2 legend as the library */
     int space;		/* 0 single 1 tabs 2 leading/trailing + runs */
     int pfcase;		/* 0 PER-FREQUENCY 1 per-frequency */
+    int intzero;	/* 1 counts written with a leading zero ("03") */
 } tsnpd_npd_spell;
 
 extern void tsnpd_npd_spell_init(tsnpd_npd_spell *s);
